@@ -74,6 +74,19 @@ func c12exec(line string) (string, []string, string, string) {
 	}
 	rec := do(method, hdr)
 	st := rec.Code
+	var viol []string
+	if method == "HEAD" { // HEAD must answer like GET, without body
+		g := do("GET", hdr)
+		if g.Code != rec.Code || g.Header().Get("ETag") != rec.Header().Get("ETag") || (g.Code == 200 && (g.Header().Get("Content-Type") != rec.Header().Get("Content-Type") || g.Header().Get("Content-Encoding") != rec.Header().Get("Content-Encoding"))) {
+			viol = append(viol, fmt.Sprintf("HEAD answers %d etag=%s but GET with the same headers answers %d etag=%s", rec.Code, rec.Header().Get("ETag"), g.Code, g.Header().Get("ETag")))
+		}
+	}
+	if (method == "GET" || method == "HEAD") && cond == "ins" && hdr["If-None-Match"] != "" && rec.Code != 304 {
+		viol = append(viol, fmt.Sprintf("a conditional request presenting the resource's own ETag got %d instead of 304", rec.Code))
+	}
+	if method != "GET" && method != "HEAD" && rec.Code != 405 {
+		viol = append(viol, fmt.Sprintf("method %s answered %d instead of 405", method, rec.Code))
+	}
 	ct, ce, et := rec.Header().Get("Content-Type"), rec.Header().Get("Content-Encoding"), rec.Header().Get("ETag")
 	body := rec.Body.Bytes()
 	dash := func(s string) string {
@@ -82,7 +95,6 @@ func c12exec(line string) (string, []string, string, string) {
 		}
 		return strings.ReplaceAll(s, " ", "")
 	}
-	var viol []string
 	res := ""
 	switch {
 	case st == 200:
